@@ -4,3 +4,6 @@ Require Import CGT.Generated.Params CGT.Model.Report.
 Definition P0 : params :=
   {| p_window := bnb_window; p_bm := ty_month; p_bd := ty_day; p_em := ty_end_month; p_ed := ty_end_day;
      p_ymin := ty_min; p_ymax := ty_max; p_round := Z.to_nat disp_round |}.
+
+(* the RSU look-back window in days, regenerated from awards.rs *)
+Definition lookback0 : nat := Z.to_nat fmv_lookback.
